@@ -723,3 +723,89 @@ def check_id_strings(seed, n_cases=120):
         elif counts != exp_counts:
             viol.append(dict(kind="history", check="id_strings", seed=seed, index=idx, violations=[f"[C03] names {names} plan {plan} depth {depth}: executions per function {counts}, expected {exp_counts} (one per call site)"]))
     return viol, cases
+
+
+# =====================================================================================================================
+def check_default_identity(seed, n_cases=0):
+    """C01 on default values that are identity-sensitive or mutated in place (deterministic, both flavours): a DAG call
+    must hand the node the very default OBJECT the plain function would see (Python evaluates a default once and shares
+    it between calls), not a copy of it"""
+    from tawazi import dag, xn
+
+    viol, cases = [], 0
+    MISSING = object()
+
+    def run_pair(label, make_body, calls):
+        nonlocal cases
+        for is_async in (False, True):
+            cases += 1
+            plain_body, dag_body = make_body(), make_body()
+            exp = [plain_body["plain"](*a) for a in calls]
+            with warnings.catch_warnings():
+                warnings.simplefilter("ignore")
+                d = dag(dag_body["traced"], is_async=is_async, max_concurrency=2)
+            try:
+                got = [(asyncio.run(d(*a)) if is_async else d(*a)) for a in calls]
+            except Exception as e:  # noqa: BLE001
+                got = f"raised {type(e).__name__}: {e}"
+            if got != exp:
+                tag = "" if label.startswith("[") else "[C01] "
+                viol.append(dict(kind="history", check="default_identity", index=cases, violations=[f"{tag}{label} ({'AsyncDAG' if is_async else 'DAG'}): calls {calls} return {got!r}, the plain function returns {exp!r}"]))
+
+    def sentinel():
+        def is_missing(v):
+            return v is MISSING
+
+        node = xn(is_missing)
+
+        def plain(v=MISSING):
+            return is_missing(v)
+
+        def traced(v=MISSING):
+            return node(v)
+
+        return dict(plain=plain, traced=traced)
+
+    def accumulating():
+        def collect(v, acc):
+            acc.append(v)
+            return list(acc)
+
+        node = xn(collect)
+        shared_plain, shared_traced = [], []
+
+        def plain(v, acc=shared_plain):
+            return collect(v, acc)
+
+        def traced(v, acc=shared_traced):
+            return node(v, acc)
+
+        return dict(plain=plain, traced=traced)
+
+    def nested_sentinel():
+        def is_missing(v):
+            return v is MISSING
+
+        node = xn(is_missing)
+
+        def plain():
+            return is_missing(MISSING), is_missing(MISSING)
+
+        def inner(v=MISSING):
+            return node(v)
+
+        inner.__name__ = inner.__qualname__ = "inner_with_sentinel_default"
+        with warnings.catch_warnings():
+            warnings.simplefilter("ignore")
+            inner_dag = dag(inner)
+
+        def traced():
+            # the default of the inner DAG's parameter and a sentinel passed explicitly as a constant
+            return inner_dag(), node(MISSING)
+
+        return dict(plain=plain, traced=traced)
+
+    run_pair("[C20] sentinel default of a nested DAG / sentinel constant, tested with `is`", nested_sentinel, [()])
+    run_pair("sentinel default tested with `is`", sentinel, [(), (3,)])
+    run_pair("mutable default appended to in place over three calls", accumulating, [(10,), (20,), (30,)])
+    return viol, cases
